@@ -285,6 +285,47 @@ func runC01(w *World, r *Report) {
 		}
 	}
 
+	// the critical section of each Atomic* method covers every read that feeds its decision:
+	// no call on the receiver's own state (Get/Set/atomicGetWindow/setInt64/contextMemory.*)
+	// happens before the mutex is taken or after it is released
+	for _, m := range []string{"AtomicIncWindow", "AtomicWindowReset", "AtomicWindowResetIn", "AtomicIncr", "AtomicDecr", "AtomicSAddWithMaxValuesAllowed", "SRem", "SCard", "SMembers"} {
+		f := w.Fn(pkgLctx, "memoryState."+m)
+		if f == nil {
+			continue
+		}
+		recv := "param:" + canonParam(f.Params[0])
+		var bad []string
+		n := 0
+		Instrs(f, func(in ssa.Instruction) {
+			c, ok := in.(ssa.CallInstruction)
+			if !ok {
+				return
+			}
+			if _, isDefer := in.(*ssa.Defer); isDefer {
+				return
+			}
+			id := calleeID(c)
+			onState := false
+			switch {
+			case idMatches(id, "memoryState).Get"), idMatches(id, "memoryState).Set"), idMatches(id, "memoryState).atomicGetWindow"), idMatches(id, "memoryState).setInt64"),
+				idMatches(id, "memoryState).Exists"), idMatches(id, "memoryState).Pop"):
+				onState = len(c.Common().Args) > 0 && Path(c.Common().Args[0]) == recv
+			case strings.HasPrefix(id, "(lunar/engine/streams/public-types.ContextI)."):
+				onState = Path(c.Common().Value) == recv+".contextMemory"
+			}
+			if !onState {
+				return
+			}
+			n++
+			if _, h := la.HeldAt(in)[recv+".mutex"]; !h {
+				bad = append(bad, calleeShort(id)+" at "+w.Pos(in.Pos()))
+			}
+		})
+		if n == 0 {
+			continue
+		}
+		r.Check(len(bad) == 0, "R1", "critical-section-covers-state-reads/"+m, f.Pos(), "all %d accesses of the shared state in %s are made with the mutex held (outside: %v)", n, m, bad)
+	}
 	c01Quota(w, r)
 	c01Hierarchy(w, r, la)
 	r.Min("R1", 8)
